@@ -392,6 +392,9 @@ func (f *frame) execInstr(ins ssa.Instruction) {
 		r := u.alloc(f.cur, ins.Type())
 		z := u.tc.zero(u.tc.sortOf(el))
 		u.store(f.cur, r, z)
+		if _, isStruct := el.Underlying().(*types.Struct); isStruct {
+			u.zeroGhostFields(f.cur, r)
+		}
 		f.vals[ins] = r
 	case *ssa.Store:
 		p := f.value(ins.Addr)
@@ -603,6 +606,7 @@ func (u *Unit) toInt(t Term) Term {
 			}
 			return intConst(vv)
 		}
+		u.bridgeFact(fmt.Sprintf("(and (<= 0 (bv2nat %[1]s)) (< (bv2nat %[1]s) %[2]s) (= ((_ int2bv %[3]d) (bv2nat %[1]s)) %[1]s))", t.S, new(big.Int).Lsh(big.NewInt(1), uint(t.T.W)).String(), t.T.W))
 		if t.T.Signed {
 			return Term{fmt.Sprintf("(ite (bvslt %s (_ bv0 %d)) (- (bv2nat %s) %s) (bv2nat %s))", t.S, t.T.W, t.S,
 				new(big.Int).Lsh(big.NewInt(1), uint(t.T.W)).String(), t.S), sInt}
@@ -617,9 +621,29 @@ func (u *Unit) toBV(t Term, s *Sort) Term {
 	case KBV:
 		return u.bvResize(t, s)
 	case KInt:
+		if n, ok := new(big.Int).SetString(t.S, 10); ok {
+			return bvConst(n, s)
+		}
+		u.bridgeFact(fmt.Sprintf("(=> (and (<= 0 %[1]s) (< %[1]s %[2]s)) (= (bv2nat ((_ int2bv %[3]d) %[1]s)) %[1]s))", t.S, new(big.Int).Lsh(big.NewInt(1), uint(s.W)).String(), s.W))
 		return Term{fmt.Sprintf("((_ int2bv %d) %s)", s.W, t.S), s}
 	}
 	panic(unsupported{"toBV of sort kind " + fmt.Sprint(t.T.K)})
+}
+
+// bridgeFact records a tautology about an int2bv / bv2nat pair (it spares the solver from rediscovering
+// the inverse relation). Terms that mention quantified variables are skipped.
+func (u *Unit) bridgeFact(f string) {
+	if strings.Contains(f, "q_") || strings.Contains(f, "p_") {
+		return
+	}
+	if u.bridge == nil {
+		u.bridge = map[string]bool{}
+	}
+	if u.bridge[f] {
+		return
+	}
+	u.bridge[f] = true
+	u.items = append(u.items, "(assert "+f+")")
 }
 
 func (u *Unit) bvResize(t Term, s *Sort) Term {
@@ -674,6 +698,23 @@ func (f *frame) unop(ins *ssa.UnOp) Val {
 	}
 	f.bad("unsupported unary op %s on %s", ins.Op, ins.X.Type())
 	return nil
+}
+
+// zeroGhostFields: the ghost fields of a freshly allocated object start at their zero values.
+func (u *Unit) zeroGhostFields(st *State, r Term) {
+	for _, name := range sortedKeys(u.eng.ghostFields) {
+		gs := u.eng.ghostFields[name]
+		hn := "GF." + name
+		hs := "(Array Int " + u.tc.smt(gs) + ")"
+		h := u.heap(st, hn, hs)
+		var z Term
+		if gs.K == KArray {
+			z = Term{"((as const (Array Int (_ BitVec 8))) #x00)", gs}
+		} else {
+			z = u.tc.zero(gs)
+		}
+		u.setHeap(st, hn, hs, sto(h, r, z))
+	}
 }
 
 // assumeLive: a slice or pointer value that exists refers to an object below the allocation frontier.
@@ -847,6 +888,12 @@ func (u *Unit) shiftAmount(y Term, xs *Sort) Term {
 	w := xs.W
 	switch y.T.K {
 	case KInt:
+		if n, ok := new(big.Int).SetString(y.S, 10); ok {
+			if n.Cmp(big.NewInt(int64(w))) >= 0 {
+				n = big.NewInt(int64(w))
+			}
+			return bvConst(n, xs)
+		}
 		return Term{fmt.Sprintf("(ite (>= %s %d) (_ bv%d %d) ((_ int2bv %d) %s))", y.S, w, w, w, w, y.S), xs}
 	case KBV:
 		if y.T.W == w {
